@@ -143,6 +143,33 @@ func genCase(t *rapid.T) Case {
 		}
 		c.Mods = append(c.Mods, mz)
 	}
+	if g.Chance(1, 3, "augmentedchoice") {
+		// a choice in one module, to which another module's augment adds cases in the short form (a node written
+		// directly under the choice) and in the long form; members are state or configuration: a case that survives a
+		// filter is the same node as without the filter, also when its member has gone
+		str := func() *sg.TypeSpec { return &sg.TypeSpec{Name: "string"} }
+		my := &sg.Mod{Name: "my", Prefix: "my", Nodes: []*sg.Node{{Kind: "container", Name: "my-top", Kids: []*sg.Node{
+			{Kind: "choice", Name: "my-ch", Kids: []*sg.Node{{Kind: "leaf", Name: "my-own", Type: str()}}}}}}}
+		mx := &sg.Mod{Name: "mx", Prefix: "mx", Imports: []sg.Import{{Mod: "my", Prefix: "my"}}}
+		aug := &sg.Augment{Target: "/my:my-top/my:my-ch"}
+		for j, n := 0, 1+g.Pick(3, "augcases"); j < n; j++ {
+			var member *sg.Node
+			if g.Bool("augmember") {
+				member = &sg.Node{Kind: "leaf", Name: fmt.Sprintf("mx-l%d", j), Type: str()}
+			} else {
+				member = &sg.Node{Kind: "container", Name: fmt.Sprintf("mx-c%d", j), Kids: []*sg.Node{{Kind: "leaf", Name: "x", Type: str()}}}
+			}
+			if g.Chance(2, 3, "augstate") {
+				member.Config = "false"
+			}
+			if g.Bool("auglongform") {
+				member = &sg.Node{Kind: "case", Name: fmt.Sprintf("mx-cs%d", j), Kids: []*sg.Node{member}}
+			}
+			aug.Kids = append(aug.Kids, member)
+		}
+		mx.Augments = []*sg.Augment{aug}
+		c.Mods = append(c.Mods, my, mx)
+	}
 	return c
 }
 
@@ -201,8 +228,8 @@ func checkCase(c Case) fw.Outcome {
 	kept, removed, keptWithKids := countNodes(plain.MS, f.ref)
 	out.NonTrivial = removed >= 1 && keptWithKids >= 1
 	_ = kept
-	opts := canon.Opts{XPathListing: true}
-	want := canon.Dump(plain.MS, canon.Opts{Prune: f.ref, XPathListing: true})
+	opts := canon.Opts{XPathListing: true, ChoiceNS: true}
+	want := canon.Dump(plain.MS, canon.Opts{Prune: f.ref, XPathListing: true, ChoiceNS: true})
 	got := canon.Dump(filtered.MS, opts)
 	if got != want {
 		out.Violation = fmt.Sprintf("filter %s: compiled-with-filter differs from pruned unfiltered schema\n%s\nmodules:\n%s", f.name, firstDiff(want, got), src)
